@@ -160,6 +160,14 @@ class StmtMixin:
                     # rest is unreachable on this path; labels later might still be targets of gotos seen later (backward) -> unsupported
                     continue
                 continue
+            if self.c.asserts:
+                key = "before:" + norm_text(self.cf.text(s))
+                if key in self.c.asserts:
+                    self.loop_keys_used.add(("assert", key))
+                    for tag, a in self.clauses(self.c.asserts[key]):
+                        g = K.evaluate(a, self.namespace(cur, self.entry))
+                        self.oblige(cur, "assert", s, g, label=norm_text(a), prop=tag)
+                        self.fact(cur, g)
             ex = self.exec_stmt(cur, s)
             cur = ex.pop("fall", None)
             for key, st in ex.items():
@@ -401,6 +409,14 @@ class StmtMixin:
         for key, st in ex.items():
             add_exit(exits, key, st)
         if endb is not None and not dead(endb):
+            for key in (ordinal, header):
+                if key in self.c.asserts:
+                    self.loop_keys_used.add(("assert", key))
+                    for tag, s in self.clauses(self.c.asserts[key]):
+                        g = K.evaluate(s, self.namespace(endb, self.entry, extra=ns_extra))
+                        self.oblige(endb, "assert", node, g, label="loop%d:%s" % (ordinal, norm_text(s)), prop=tag)
+                        self.fact(endb, g)
+                    break
             if inc is not None:
                 self.rvalue(endb, inc)
             if is_do:
@@ -898,6 +914,10 @@ class StmtMixin:
             else:
                 result = ArrView(self, end, rv) if rv.region is not None else None
         ns = self.namespace(end, self.entry, result=result, formals_at_entry=True)
+        for tag, s in self.clauses(c.asserts.get("end", [])):
+            g = K.evaluate(s, ns)
+            self.oblige(end, "assert", None, g, label="end:" + norm_text(s), prop=tag)
+            self.fact(end, g)
         for i, (prop, txt) in enumerate(self.clauses(c.ensures)):
             self.oblige(end, "ensures", None, K.evaluate(txt, ns), label=norm_text(txt), prop=prop)
         for name, rng in c.outputs.items():
